@@ -26,7 +26,7 @@ RULE = (
     "inner program with <= N nodes of the grammar {Y(msg), YF, Seq, Try(except Exception/else/finally), Raise, Return} "
     "instantiated per wrapper (generic 'null' messages; read/null on the devices of the list for lazily_stage; open_run/close_run with and "
     "without run keys + null for monitor/fly, and run_wrapper(program) as inner plan); device lists = every tuple of 1-3 devices (repetition "
-    "allowed for stage_wrapper, every subset for the others) from the forest P1{c1a,c1b}, P2{c2a}, S; scripts = every placement of <= J "
+    "allowed for stage_wrapper, every subset for the others) from the forest P1{c1a,c1b}, P2{c2a}, S (quick: the [obj]+children and Status response styles on lists of 1-2 devices only); scripts = every placement of <= J "
     "injections (quick: N<=3,J=1; thorough: N<=3,J=2 plus N=4,J=1 on the configurations whose inner vocabulary matters) from {throw E1, RequestStop, RequestAbort} at messages of the wrapped plan, everything else answered by "
     "the responder, run to termination; oracle per wrapper on the emitted trace: one close_run per open_run with exit_status matching the "
     "outcome; unstage sequence (restricted to devices of emitted stage messages) = reverse of the stage sequence, each once, after the plan's "
@@ -174,9 +174,13 @@ def _configs(tier):
         for mode in ("self", "tree", "status"):
             if not ex:  # stage_wrapper never looks at the wrapped plan's messages: inner programs <= 2 (3) nodes
                 for devs in _tuples(3):
+                    if red and mode != "self" and len(devs) > 2:
+                        continue  # quick: the two other stage-response styles on device lists of 1-2 only
                     out.append(("stage_wrapper", {"devices": list(devs), "stage": mode}, fam("generic", 2 if red else 3)))
             for devs in _subsets(3):
                 if ex and len(devs) > 2:
+                    continue
+                if red and mode != "self" and len(devs) > 2:
                     continue
                 out.append(("lazily_stage_wrapper", {"devices": list(devs), "stage": mode}, fam("devices", n if len(devs) < 3 or not red else 2)))
         for subs in ("func", "list2", "dict", "none"):
